@@ -5,6 +5,7 @@ import (
 	"encoding/binary"
 	"errors"
 	"fmt"
+	"io"
 	"log"
 	"net"
 	"net/http"
@@ -238,6 +239,12 @@ func (zns *ZnPMServer) readNamedPipe(pipe *pipe) {
 		var pid int
 		// read packet
 		if err := ReadDataFromNamedPipe(pipeReader, buf); err != nil {
+			if errors.Is(err, io.EOF) {
+				// no worker holds the pipe open right now (the last one exited and its
+				// replacement has not opened it yet): wait for the next writer
+				time.Sleep(100 * time.Millisecond)
+				continue
+			}
 			log.Fatalf("[PARENT] read buffer failed: %s", err)
 			continue
 		}
